@@ -187,3 +187,55 @@ func HarnessC16Empty() {
 	verifAssert(err == nil && string(out) == "empty() {}\n", "C16.empty-script")
 	verifReach("C16.empty.end")
 }
+
+// HarnessC16Big: scripts of big-2, big-1 or big bytes (big up to 64 KiB): lines of filler
+// code with arbitrary printable bytes at the start, the middle and the end.
+func HarnessC16Big() {
+	size := verifParam("big") - nondetChoice(3)
+	script := make([]byte, size)
+	for i := range script {
+		if i%61 == 60 {
+			script[i] = '\n'
+		} else {
+			script[i] = 'a' + byte(i%7)
+		}
+	}
+	script[size-1] = ';'
+	for _, at := range []int{1, size / 2, size - 2} {
+		if at > 0 && at < size-1 && script[at] != '\n' {
+			b := nondetByte() & 0x7f
+			verifAssume(b > 32 && b < 127)
+			script[at] = b
+		}
+	}
+	out, err := FromPerl("/some/dir/myfunc.pl", bytes.NewReader(script))
+	verifAssert(err == nil, "C16.big.no-error")
+	pre := "myfunc" + c16Head
+	if err != nil || len(out) < len(pre)+len(c16Tail) {
+		verifAssert(err != nil, "C16.big.frame-length")
+		return
+	}
+	verifAssert(string(out[:len(pre)]) == pre, "C16.big.name-and-frame")
+	verifAssert(string(out[len(out)-len(c16Tail):]) == c16Tail, "C16.big.frame-tail")
+	body := out[len(pre) : len(out)-len(c16Tail)]
+	dec := make([]byte, len(body))
+	for i, b := range body {
+		okc := b == '\n' || b == 's' || b == 'b' || (b >= 32 && b <= 96 && b != '\'' && b != '\\')
+		verifAssert(okc, "C16.big.body-cannot-end-the-quoting")
+		switch b {
+		case 's':
+			dec[i] = '\''
+		case 'b':
+			dec[i] = '\\'
+		default:
+			dec[i] = b
+		}
+	}
+	got := refUnpackC16(append(dec, '\n'))
+	want := string(script) + "\n"
+	if verifCanary() {
+		want = string(script) + " "
+	}
+	verifAssert(string(got) == want, "C16.big.perl-receives-the-whole-script")
+	verifReach("C16.big.end")
+}
